@@ -278,12 +278,12 @@ pub fn panic_sig(p: &PanicInfo) -> String {
 
 pub fn msg_class(msg: &str) -> String {
     // keep the generic part of the message: cut at the first ':' and drop digits
-    let head = msg.split(':').next().unwrap_or("");
+    let head = msg.split(": ").next().unwrap_or("");
     let mut s: String = head.chars().filter(|c| !c.is_ascii_digit()).collect();
     s = s.replace("  ", " ");
     let s = s.trim();
     let s = if s.len() > 60 { &s[..60] } else { s };
-    s.replace('|', "/").replace(' ', "-")
+    s.replace('|', "/").replace(' ', "-").replace('`', "")
 }
 
 fn enclosing_fn(file: &str, line: u32) -> Option<String> {
